@@ -20,6 +20,7 @@
 -/
 import RV.Model.Client
 import RV.Proofs.Client
+import RV.Proofs.ClientTimed
 namespace RV.C08
 open RV RV.Client RV.Exchange
 
@@ -300,4 +301,167 @@ example : (run toyH (P1 5 0) (init (P1 5 0)) [.dialFail]).phase = .returned .dia
   decide +kernel
 
 end examples
+end RV.C08
+
+/-! ## The timed layer: "… at the configured interval"
+
+  `RV.Exchange.Timed` (Model/ClientTimed.lean) refines the machine above with time stamps and with
+  `time.Ticker` as client.go uses it: created at `dialOk` (instant `t0`) iff `Retry > 0`; firing number
+  k is due at `t0 + k·d`; the runtime sends it on a channel of capacity 1 at some instant ≥ its due time
+  (event `fire k`; a send into a full channel is dropped, late firings may be skipped); the helper
+  receives it at some instant ≥ the send (event `ev .tick`).  `wellTimed` = a time-stamped sequence obeys
+  these rules.  Theorems for EVERY well-timed sequence (induction, no bound on the length):
+  the refinement, and WHEN writes can happen.  `writes` is the ghost list (instant, firing number) of
+  every `conn.Write`, parallel to `sent`; `writes[0]` is the first write, `writes[i]` for i ≥ 1 the i-th
+  retransmission.
+
+  What is NOT here: how late the runtime and the scheduler are.  The upper bounds (never early, never
+  more than one per interval) need nothing; the lower bound is conditional on an explicit latency
+  hypothesis (`responsive`, `settled`).
+-/
+namespace RV.C08
+open RV RV.Client RV.Exchange RV.Exchange.Timed
+
+variable (H : Hash) (P : Params)
+
+/-- T0. Refinement: forgetting time stamps and deliveries, a timed run IS a run of the untimed machine —
+    so every theorem above holds of the logical part of every timed run. -/
+theorem timed_refines (evs : List TEvent) :
+    (treach H P evs).logic = reach H P (erase evs) ∧
+    (treach H P evs).writes.length = (treach H P evs).logic.sent.length :=
+  ⟨RV.Exchange.Timed.timed_refines H P evs, RV.Exchange.Timed.writes_parallel_sent H P evs⟩
+
+/-- T1. Never early: the i-th retransmission does not happen before `t0 + i·d`. -/
+theorem resend_not_early (evs : List TEvent) (hw : wellTimed H P evs = true)
+    (i : Nat) (h : i < (treach H P evs).writes.length) :
+    (treach H P evs).t0 + i * period P ≤ ((treach H P evs).writes[i]).1 :=
+  RV.Exchange.Timed.resend_not_early H P evs hw i h
+
+/-- T2. Never more than one per interval: a write that has happened by `T` has index ≤ `(T - t0) / d`;
+    at most `1 + (T - t0) / d` writes have happened by `T`; and so for everything sent, at any instant
+    not before the last event.  (With `Retry ≤ 0`, `d = 0` and `x / 0 = 0`: at most the first write.) -/
+theorem resend_count_le (evs : List TEvent) (hw : wellTimed H P evs = true) (T : Nat) :
+    (∀ i (h : i < (treach H P evs).writes.length), ((treach H P evs).writes[i]).1 ≤ T →
+      i ≤ (T - (treach H P evs).t0) / period P) ∧
+    (treach H P evs).writes.countP (fun w => decide (w.1 ≤ T)) ≤ 1 + (T - (treach H P evs).t0) / period P ∧
+    ((treach H P evs).now ≤ T →
+      (treach H P evs).logic.sent.length ≤ 1 + (T - (treach H P evs).t0) / period P) :=
+  ⟨fun i h hT => RV.Exchange.Timed.resend_index_le H P evs hw T i h hT,
+   RV.Exchange.Timed.resend_count_le H P evs hw T,
+   RV.Exchange.Timed.sent_length_le H P evs hw T⟩
+
+/-- T3. Spacing: consecutive writes are caused by different firings, the later with the larger number;
+    each write is not before its firing was due; hence the next write is at least one interval after
+    the DUE time of the previous one's tick, i.e. at least `d` minus the previous write's lateness after
+    the previous write.  (Not `d` after the previous write: see `late_receive_then_quick_resend`.) -/
+theorem resend_spacing_or_late (evs : List TEvent) (hw : wellTimed H P evs = true)
+    (i : Nat) (h : i + 1 < (treach H P evs).writes.length) :
+    let s := treach H P evs
+    let a := s.writes[i]
+    let b := s.writes[i + 1]
+    a.2 < b.2 ∧ a.1 ≤ b.1 ∧ due P s a.2 ≤ a.1 ∧ due P s a.2 + period P ≤ b.1 ∧
+      a.1 + period P ≤ b.1 + (a.1 - due P s a.2) :=
+  RV.Exchange.Timed.resend_spacing_or_late H P evs hw i h
+
+/-- T4. Lower bound under a latency hypothesis: positive interval, `L < d`; along the run nothing (the
+    next firing, the tick in the channel) is ever overdue by more than `L` when something happens and no
+    firing is skipped; the call still waits, its helper runs; at the instant `T` of the observation the
+    deadline of what is outstanding has not been reached.  Then no tick was lost and at least
+    `(T - t0 - L) / d` retransmissions have happened. -/
+theorem resend_count_ge_under_latency (hr : P.retry > 0) (L : Nat) (hL : L < period P)
+    (evs : List TEvent) (hw : wellTimed H P evs = true) (hresp : responsive H P L evs = true)
+    (T : Nat) (hset : settled P L (treach H P evs) T = true)
+    (hwait : (treach H P evs).logic.phase = .waiting)
+    (halive : (treach H P evs).logic.helperAlive = true) :
+    (∀ tk, (treach H P evs).ticker = some tk → tk.lost = 0) ∧
+    (T - (treach H P evs).t0 - L) / period P ≤ (treach H P evs).logic.sent.length - 1 :=
+  RV.Exchange.Timed.resend_count_ge_under_latency H P hr L hL evs hw hresp T hset hwait halive
+
+/-- T5. `Retry ≤ 0`: no ticker exists, no delivery and no receive is ever enabled, no well-timed
+    sequence contains one, at most the first write happens (`no_resend_without_retry` through T0). -/
+theorem no_resend_without_retry_timed (hr : P.retry ≤ 0) (evs : List TEvent) (hw : wellTimed H P evs = true) :
+    (treach H P evs).ticker = none ∧
+    (∀ t k, enabled P (treach H P evs) (t, .fire k) = false) ∧
+    (∀ t, enabled P (treach H P evs) (t, .ev .tick) = false) ∧
+    (∀ te, te ∈ evs → te.2 ≠ .ev .tick ∧ ∀ k, te.2 ≠ .fire k) ∧
+    (treach H P evs).logic.sent.length ≤ 1 :=
+  RV.Exchange.Timed.no_resend_without_retry_timed H P hr evs hw
+
+/-- T6. Tie to the observation: whatever is SEEN of a well-timed run — each write at an instant not before
+    it happened, the end not before the last event, on a clock whose origin is not after `t0` —
+    satisfies the two predicates `RV.Driver.c08` evaluates on the harness's raw numbers, with any
+    allowance. -/
+theorem observation_within_model_bounds (evs : List TEvent) (hw : wellTimed H P evs = true)
+    (c : Nat) (hc : c ≤ (treach H P evs).t0) (arr : List Nat) (fin tol : Nat)
+    (hlen : arr.length = (treach H P evs).writes.length)
+    (harr : ∀ i (h1 : i < arr.length) (h2 : i < (treach H P evs).writes.length),
+      ((treach H P evs).writes[i]).1 ≤ c + arr[i])
+    (hfin : (treach H P evs).now ≤ c + fin) :
+    obsNotEarly (period P) tol arr = true ∧ obsCountOk (period P) tol fin arr = true :=
+  RV.Exchange.Timed.observation_within_model_bounds H P evs hw c hc arr fin tol hlen harr hfin
+
+/-! ### Non-vacuity of the timed layer (interval 5, toy hash, evaluated by the kernel) -/
+section timed_examples
+
+/-- a punctual run: three firings, each received within 2 -/
+def punctualRun : List TEvent :=
+  [(10, .ev .dialOk), (15, .fire 1), (16, .ev .tick), (20, .fire 2), (22, .ev .tick), (25, .fire 3), (25, .ev .tick)]
+
+example : wellTimed toyH (P1 5 0) punctualRun = true := by decide +kernel
+example : (treach toyH (P1 5 0) punctualRun).writes = [(10, 0), (16, 1), (22, 2), (25, 3)] := by decide +kernel
+example : (treach toyH (P1 5 0) punctualRun).logic.sent = [reqWire, reqWire, reqWire, reqWire] := by decide +kernel
+/-- the hypotheses of T4 are satisfiable, and its bound is attained: (29 - 10 - 2) / 5 = 3 retransmissions -/
+example : responsive toyH (P1 5 0) 2 punctualRun = true ∧ settled (P1 5 0) 2 (treach toyH (P1 5 0) punctualRun) 29 = true ∧
+    (treach toyH (P1 5 0) punctualRun).logic.phase = .waiting ∧
+    (treach toyH (P1 5 0) punctualRun).logic.helperAlive = true ∧
+    (29 - (treach toyH (P1 5 0) punctualRun).t0 - 2) / period (P1 5 0) = 3 := by decide +kernel
+/-- … and the upper bound T2 is attained as well: 4 writes = 1 + (25 - 10) / 5 -/
+example : (treach toyH (P1 5 0) punctualRun).logic.sent.length = 1 + (25 - 10) / period (P1 5 0) := by decide +kernel
+
+/-- a dropped tick: firing 2 finds firing 1 still in the channel; the helper receives firing 1 late (at 12)
+    and firing 3 at once (at 15) -/
+def lateRun : List TEvent :=
+  [(0, .ev .dialOk), (5, .fire 1), (10, .fire 2), (12, .ev .tick), (15, .fire 3), (15, .ev .tick)]
+
+example : wellTimed toyH (P1 5 0) lateRun = true := by decide +kernel
+example : (treach toyH (P1 5 0) lateRun).ticker = some { next := 4, chan := none, taken := 2, lost := 1 } := by
+  decide +kernel
+/-- two retransmissions only 3 < 5 apart (T3 allows it: the first was 7 late) -/
+theorem late_receive_then_quick_resend :
+    wellTimed toyH (P1 5 0) lateRun = true ∧
+    (treach toyH (P1 5 0) lateRun).writes = [(0, 0), (12, 1), (15, 3)] := by decide +kernel
+/-- … and this run is not `responsive` for any latency below the interval -/
+example : responsive toyH (P1 5 0) 4 lateRun = false := by decide +kernel
+
+/-- the runtime skips firings 1 and 2 -/
+example : wellTimed toyH (P1 5 0) [(0, .ev .dialOk), (17, .fire 3), (17, .ev .tick)] = true ∧
+    (treach toyH (P1 5 0) [(0, .ev .dialOk), (17, .fire 3), (17, .ev .tick)]).writes = [(0, 0), (17, 3)] := by
+  decide +kernel
+
+/-- what `wellTimed` rules out: a receive with nothing in the channel, a delivery before it is due, a delivery
+    out of order, time running backwards, a delivery after the return, anything of the ticker when `Retry ≤ 0` -/
+example : wellTimed toyH (P1 5 0) [(0, .ev .dialOk), (7, .ev .tick)] = false := by decide +kernel
+example : wellTimed toyH (P1 5 0) [(0, .ev .dialOk), (4, .fire 1)] = false := by decide +kernel
+example : wellTimed toyH (P1 5 0) [(0, .ev .dialOk), (10, .fire 2), (10, .fire 1)] = false := by decide +kernel
+example : wellTimed toyH (P1 5 0) [(3, .ev .dialOk), (2, .ev .ctxDone)] = false := by decide +kernel
+example : wellTimed toyH (P1 5 0) [(0, .ev .dialOk), (1, .ev .readError), (5, .fire 1)] = false := by decide +kernel
+example : wellTimed toyH (P1 5 0) [(0, .ev .dialOk), (5, .fire 1), (6, .ev .tick), (6, .ev .tick)] = false := by
+  decide +kernel
+example : wellTimed toyH (P1 0 0) [(0, .ev .dialOk), (5, .fire 1)] = false := by decide +kernel
+example : wellTimed toyH (P1 0 0) [(0, .ev .dialOk), (5, .ev .tick)] = false := by decide +kernel
+example : wellTimed toyH (P1 (-1) 0) [(0, .ev .dialOk), (5, .ev .tick)] = false := by decide +kernel
+/-- a tick received after the return writes nothing (the conn is closed), and the helper then exits -/
+example : wellTimed toyH (P1 5 0)
+      [(0, .ev .dialOk), (5, .fire 1), (6, .ev .readError), (7, .ev .tick), (8, .ev .helperObservesCtx)] = true ∧
+    (treach toyH (P1 5 0)
+      [(0, .ev .dialOk), (5, .fire 1), (6, .ev .readError), (7, .ev .tick), (8, .ev .helperObservesCtx)]).writes = [(0, 0)] := by
+  decide +kernel
+/-- erasure -/
+example : erase lateRun = [.dialOk, .tick, .tick] := by decide +kernel
+/-- the driver's predicates on numbers: on time, one millisecond early, one too many -/
+example : obsNotEarly 5 0 [0, 5, 11, 15] = true ∧ obsCountOk 5 0 15 [0, 5, 11, 15] = true := by decide
+example : obsNotEarly 5 0 [0, 5, 9] = false ∧ obsNotEarly 5 1 [0, 5, 9] = true := by decide
+example : obsCountOk 5 0 14 [0, 5, 11, 14] = false := by decide
+
+end timed_examples
 end RV.C08
